@@ -206,7 +206,7 @@ def snapshot_diff(before, after, prefix=""):
 
 
 # ------------------------------------------------------------------ C08 view consistency
-def views_consistent(run, case, traj, scale=None, pfx="views", key=None):
+def views_consistent(run, case, traj, scale=None, pfx="views", key=None, qnorm_tol=1e-9):
     """
     All representations of a trajectory object describe the same poses: equal counts,
     positions == matrix translations, R(quaternion) == matrix rotation, every matrix is a
@@ -238,7 +238,8 @@ def views_consistent(run, case, traj, scale=None, pfx="views", key=None):
         worst_qn = max(worst_qn, abs(float(np.linalg.norm(v["q"][k])) - 1.0))
     run.check(worst_q <= 1e-9, pfx + ": R(quaternion) == matrix rotation", case,
               "quaternions and pose matrices describe rotations %g apart" % worst_q, key=key)
-    run.check(worst_qn <= 1e-9, pfx + ": unit quaternions", case,
+    # (qnorm_tol: quaternions handed over with file precision are kept as given by evo)
+    run.check(worst_qn <= qnorm_tol, pfx + ": unit quaternions", case,
               "quaternion norm off by %g" % worst_qn, key=key)
     run.check(worst_se3 <= 1e-9, pfx + ": matrices are rigid-body poses", case,
               "a pose matrix is %g away from SE(3)" % worst_se3, key=pfx + ":not-se3")
